@@ -147,35 +147,71 @@ def supHead (env : Env) : TA → SupHead
 def notAClass : Raw :=
   if nonGenericCatchesTypeError then .ok nonGenericCatchResult else .raised .typeError
 
+/-! #### a sub type against a super type that is the *class* `d` (what `_is_subtype` is called with for every member of a Union
+super type once the Union branch asks `_is_subtype` instead of `in`).  None of these can raise: both sides are classes. -/
+
+/-- `_is_subtype(<class c>, <class d>)` -/
+def clsVsCls (env : Env) (c d : ClsId) : Bool :=
+  if objectShortcut && d == env.object then objectShortcutResult else env.sub c d
+
+/-- `_is_subtype(Any, <class d>)`: `python_sub = object` -/
+def anyVsCls (env : Env) (d : ClsId) : Bool :=
+  if objectShortcut && d == env.object then objectShortcutResult else env.sub env.object d
+
+/-- `_is_subtype(inspect._empty, <class d>)`.  [env] `class _empty` has no base but `object` -/
+def emptyVsCls (env : Env) (d : ClsId) : Bool :=
+  if objectShortcut && d == env.object then objectShortcutResult else d == env.object
+
+/-- what the generic path answers once the origins are related and the super type has no type arguments:
+    `if not super_args: return …` (new) / the argument-count test (`n` sub arguments against 0) and `all(())` -/
+def rawSuper (n : Nat) : Bool :=
+  if rawSuperShortcut then rawSuperResult else if argLenMismatch n 0 then argLenMismatchResult else true
+
+/-- `_is_subtype(G[…] with origin o and n type arguments, <class d>)` -/
+def genVsCls (env : Env) (o : ClsId) (n : Nat) (d : ClsId) : Bool :=
+  if objectShortcut && d == env.object then objectShortcutResult
+  else if !env.sub o d then genericOriginFailResult else rawSuper n
+
 /-- sub type is a class `c` (not generic) -/
-def isSubtypeCls (env : Env) (c : ClsId) (sup : TA) : Raw :=
+def isSubtypeClsB (env : Env) (c : ClsId) (sup : TA) : Bool :=
   match supHead env sup with
-  | .object => .ok objectShortcutResult
-  | .union cs => .ok (cs.contains c)                       -- `sub_type in type_args`
-  | .cls sc => .ok (env.sub c sc)
+  | .object => objectShortcutResult
+  | .union cs => if unionSuperBySubtype then cs.any (clsVsCls env c)    -- `any(_is_subtype(sub_type, ta) for ta in type_args)`
+                 else cs.contains c                                      -- `sub_type in type_args`
+  | .cls sc => env.sub c sc
+
+def isSubtypeCls (env : Env) (c : ClsId) (sup : TA) : Raw := .ok (isSubtypeClsB env c sup)
 
 /-- sub type is `Any`: `python_sub = object`; `Any in type_args` is False for a union of classes -/
 def isSubtypeAny (env : Env) (sup : TA) : Raw :=
   match supHead env sup with
   | .object => .ok objectShortcutResult
-  | .union _ => .ok false
+  | .union cs => .ok (if unionSuperBySubtype then cs.any (anyVsCls env) else false)
   | .cls sc => .ok (env.sub env.object sc)
 
 /-- sub type is `inspect._empty` (no annotation).  [env] `class _empty` has no base but `object` and is no member of a Union -/
 def isSubtypeEmpty (env : Env) (sup : TA) : Raw :=
   match supHead env sup with
   | .object => .ok objectShortcutResult
-  | .union _ => .ok false
+  | .union cs => .ok (if unionSuperBySubtype then cs.any (emptyVsCls env) else false)
   | .cls sc => .ok (sc == env.object)
 
-/-- sub type is a Union.  `typing.Union[...]` is a `typing._GenericAlias`, so it takes the *generic* path, where
-    `issubclass(typing.Union, cls)` raises a TypeError outside every `try`; `X | Y` is not generic for `_is_generic`, so it
-    takes the guarded path. -/
+/-- sub type is a Union.
+    Old shape: only a Union super type looks at the members (`all([x in type_args …])`); against a class `typing.Union[...]`
+    is a `typing._GenericAlias`, so it takes the *generic* path, where `issubclass(typing.Union, cls)` raises a TypeError outside
+    every `try`, and `X | Y` is not generic for `_is_generic`, so it takes the guarded path.
+    New shapes: `all(_is_subtype(sub_type=x, super_type=super_type) for x in members)` — inside the Union-super-type branch
+    (`subUnionByMembers`) or, hoisted, against every super type (`subUnionHoisted`).  The members are classes: no raise. -/
 def isSubtypeUnion (env : Env) (pep604 : Bool) (ds : List ClsId) (sup : TA) : Raw :=
+  let byMembers : Bool := if unionSubQuantAll then ds.all (fun c => isSubtypeClsB env c sup) else ds.any (fun c => isSubtypeClsB env c sup)
   match supHead env sup with
   | .object => .ok objectShortcutResult
-  | .union cs => .ok (if unionSubQuantAll then ds.all cs.contains else ds.any cs.contains)
-  | .cls _ => if pep604 then notAClass else .raised .typeError
+  | .union cs =>
+    if subUnionHoisted || subUnionByMembers then .ok byMembers
+    else .ok (if unionSubQuantAll then ds.all cs.contains else ds.any cs.contains)
+  | .cls _ =>
+    if subUnionHoisted then .ok byMembers
+    else if pep604 then notAClass else .raised .typeError
 
 /-- `all(<generator>)`: the second check only runs when the first returned True -/
 def Raw.andThen (a : Raw) (b : Raw) : Raw :=
@@ -191,24 +227,24 @@ def isSubtypeT (env : Env) : TA → TA → Raw
   | .gen1 g s, sup =>
     match supHead env sup with
     | .object => .ok objectShortcutResult
-    | .union _ => .ok false                                -- `List[..] in type_args`
+    | .union cs => .ok (if unionSuperBySubtype then cs.any (genVsCls env (env.origin1 g) 1) else false)   -- old: `List[..] in type_args`
     | .cls sc =>
       if !env.sub (env.origin1 g) sc then .ok genericOriginFailResult else
       match sup with                                       -- sub_args = (s,)
       | .gen1 _ t => if argLenMismatch 1 1 then .ok argLenMismatchResult else isSubtypeT env s t
       | .gen3 _ _ => if argLenMismatch 1 3 then .ok argLenMismatchResult else isSubtypeT env s .any
-      | _ => if argLenMismatch 1 0 then .ok argLenMismatchResult else .ok true
+      | _ => .ok (rawSuper 1)                              -- super_args = ()
   | .gen3 g s, sup =>
     match supHead env sup with
     | .object => .ok objectShortcutResult
-    | .union _ => .ok false
+    | .union cs => .ok (if unionSuperBySubtype then cs.any (genVsCls env (env.origin3 g) 3) else false)
     | .cls sc =>
       if !env.sub (env.origin3 g) sc then .ok genericOriginFailResult else
       match sup with                                       -- sub_args = (Any, Any, s)
       | .gen3 _ t => if argLenMismatch 3 3 then .ok argLenMismatchResult
                      else (isSubtypeAny env .any).andThen ((isSubtypeAny env .any).andThen (isSubtypeT env s t))
       | .gen1 _ t => if argLenMismatch 3 1 then .ok argLenMismatchResult else isSubtypeAny env t
-      | _ => if argLenMismatch 3 0 then .ok argLenMismatchResult else .ok true
+      | _ => .ok (rawSuper 3)
 
 /-- `_is_subtype(sub_type=<annotation reported by inspect>, super_type=sup)` -/
 def isSubtype (env : Env) : Ann → TA → Raw
@@ -309,9 +345,12 @@ def isBareArg (env : Env) : TA → Bool
 /-- `collections.abc.Callable[...]` is a `types.GenericAlias`: `_is_instance` sends it through `convert_to_typing_types`,
     which (1) converts every element of the flat `__args__` — a bare `list` / `dict` / … there raises
     ValueError('Missing type arguments'), typing constructs are returned unchanged — and (2) re-subscripts `typing.Callable`
-    with the *flat* tuple.  `none` = the conversion yields the same annotation in the typing spelling. -/
+    with the *flat* tuple (old shape).  `none` = the conversion yields the same annotation in the typing spelling. -/
 def abcRoute (env : Env) (e : Exp) : Option Exc :=
-  if ((e.ps.getD []) ++ [e.ret]).any (isBareArg env) then some .valueError
+  if convertAbcCallable then
+    -- new shape: `if origin is collections.abc.Callable:` rebuilds `typing.Callable[flat[:-1], flat[-1]]` for every arity
+    (if !convertAbcBareTolerated && ((e.ps.getD []) ++ [e.ret]).any (isBareArg env) then some .valueError else none)
+  else if ((e.ps.getD []) ++ [e.ret]).any (isBareArg env) then some .valueError
   else if abcConvertible e then none
   else some .typeError
 
